@@ -25,26 +25,32 @@ MatchTable == { <<"a*", "a">>, <<"a*", "ab">>,
                 <<"b?", "bc">> }
 Match(p, ch) == <<p, ch>> \in MatchTable
 
-VARIABLES subs, alive, nops, log
-vars == <<subs, alive, nops, log>>
-view == <<subs, alive>>
+VARIABLES subs, alive, gen, nops, log
+vars == <<subs, alive, gen, nops, log>>
+\* gen counts the re-connections per name: a state reached through a re-connect is a different state
+view == <<subs, alive, gen>>
 
 Sub(c, pat, n) == [c |-> c, pat |-> pat, name |-> n]
-Init == subs = {} /\ alive = Conns /\ nops = 0 /\ log = <<>>
+Init == subs = {} /\ alive = Conns /\ gen = [c \in Conns |-> 0] /\ nops = 0 /\ log = <<>>
 
 Logged(r) == log' = Append(log, r) /\ nops' = nops + 1
 Subscribe(c, pat, n) == /\ nops < MaxOps /\ c \in alive
                         /\ subs' = subs \cup {Sub(c, pat, n)}           \* idempotent
-                        /\ Logged([op |-> "sub", c |-> c, pat |-> pat, name |-> n]) /\ UNCHANGED alive
+                        /\ Logged([op |-> "sub", c |-> c, pat |-> pat, name |-> n]) /\ UNCHANGED <<alive, gen>>
 Unsubscribe(c, pat, n) == /\ nops < MaxOps /\ c \in alive
                           /\ subs' = subs \ {Sub(c, pat, n)}
-                          /\ Logged([op |-> "unsub", c |-> c, pat |-> pat, name |-> n]) /\ UNCHANGED alive
+                          /\ Logged([op |-> "unsub", c |-> c, pat |-> pat, name |-> n]) /\ UNCHANGED <<alive, gen>>
 UnsubscribeAll(c, pat) == /\ nops < MaxOps /\ c \in alive
                           /\ subs' = {s \in subs : ~(s.c = c /\ s.pat = pat)}
-                          /\ Logged([op |-> "unsuball", c |-> c, pat |-> pat]) /\ UNCHANGED alive
+                          /\ Logged([op |-> "unsuball", c |-> c, pat |-> pat]) /\ UNCHANGED <<alive, gen>>
 Disconnect(c) == /\ nops < MaxOps /\ c \in alive
                  /\ alive' = alive \ {c} /\ subs' = {s \in subs : s.c # c}
-                 /\ Logged([op |-> "disc", c |-> c])
+                 /\ Logged([op |-> "disc", c |-> c]) /\ UNCHANGED gen
+
+\* a new connection under the name of a closed one (connection identities are reused by the server)
+Reconnect(c) == /\ nops < MaxOps /\ c \notin alive
+                /\ alive' = alive \cup {c} /\ gen' = [gen EXCEPT ![c] = @ + 1] /\ UNCHANGED subs
+                /\ Logged([op |-> "reopen", c |-> c])
 
 \* ---- observable results (used by the trace spec as well) ----
 \* the deliveries of one PUBLISH: one per matching subscription
@@ -58,7 +64,7 @@ Numpat(S, MO, m) == Cardinality({s.name : s \in {x \in S : x.pat /\ MO[x.c] = m}
 Next == \/ \E c \in Conns : \/ \E n \in Channels : Subscribe(c, FALSE, n) \/ Unsubscribe(c, FALSE, n)
                             \/ \E n \in Patterns : Subscribe(c, TRUE, n) \/ Unsubscribe(c, TRUE, n)
                             \/ UnsubscribeAll(c, TRUE) \/ UnsubscribeAll(c, FALSE)
-                            \/ Disconnect(c)
+                            \/ Disconnect(c) \/ Reconnect(c)
 Spec == Init /\ [][Next]_vars
 
 \* ---- properties of the abstract design ----
